@@ -29,6 +29,23 @@ module.exports = async function initWasm() {
         clearInterval(checkReady);
         console.log("✅ WASM OTP module loaded");
 
+        // syscall/js cannot represent a BigInt: handing one to a Go function
+        // panics inside the Go runtime ("bad type flag") and ends the program,
+        // after which every call throws. Refuse it here like any other argument
+        // of the wrong type, for the globals and the exported object alike.
+        for (const name of ["generateHOTP", "validateHOTP", "generateTOTP", "validateTOTP", "generateOTPURL"]) {
+          const fn = globalThis[name];
+          if (typeof fn !== "function" || fn.bigintGuard) continue;
+          const guarded = function (...args) {
+            if (args.some((a) => typeof a === "bigint")) {
+              return "error: BigInt arguments are not supported, pass a number";
+            }
+            return fn.apply(this, args);
+          };
+          guarded.bigintGuard = true;
+          globalThis[name] = guarded;
+        }
+
         resolve({
           /**
            * Generate an HOTP code using a shared secret and counter.
